@@ -236,6 +236,34 @@ func GenList(t *rapid.T, hostile bool) ListCase {
 		}
 		c.Entries = append(c.Entries, e)
 	}
+	if gen.Chance(t, 7, "siblingmodules") {
+		// nested modules in sibling directories one of whose names is the other plus a character that sorts below
+		// the slash (space ! # $ % & ( ) + , - .), or above it; files under both, in any order in the list
+		d := pick(t, []string{"tools", "api", "sub/gen", "a/b"}, "sibdir")
+		x := pick(t, []string{"-gen", ".v2", " x", "+1", ",a", "(1)", "!", "_x", "2", "~"}, "sibext")
+		add := []Entry{
+			{Name: d + "/go.mod", Mode: "file", Content: []byte("module example.com/nested\n"), Size: -1},
+			{Name: d + x + "/go.mod", Mode: "file", Content: []byte("module example.com/nested2\n"), Size: -1},
+			{Name: d + "/tool.go", Mode: "file", Content: []byte("package tool\n"), Size: -1},
+			{Name: d + "/cmd/x/main.go", Mode: "file", Content: []byte("package main\n"), Size: -1},
+			{Name: d + x + "/gen.go", Mode: "file", Content: []byte("package gen\n"), Size: -1},
+		}
+		if rapid.Bool().Draw(t, "sibonlyone") {
+			add = append(add[:1:1], add[2:]...) // only the shorter name is a module: the longer one's files stay in
+		}
+		for _, a := range add {
+			dup := false
+			for _, e := range c.Entries {
+				if strings.EqualFold(e.Name, a.Name) || strings.HasPrefix(strings.ToLower(a.Name), strings.ToLower(e.Name)+"/") {
+					dup = true
+				}
+			}
+			if !dup {
+				at := gen.Uniform(t, len(c.Entries)+1, "sibat")
+				c.Entries = append(c.Entries[:at:at], append([]Entry{a}, c.Entries[at:]...)...)
+			}
+		}
+	}
 	if c.GoMod >= 0 {
 		gm := Entry{Name: "go.mod", Mode: "file", Content: []byte(GoModKinds[c.GoMod].Content), Size: -1}
 		if gen.Chance(t, 10, "gomododdreader") {
@@ -416,3 +444,27 @@ func (i info) Mode() fs.FileMode  { return i.e.FileMode() }
 func (i info) ModTime() time.Time { return time.Time{} }
 func (i info) IsDir() bool        { return i.e.Mode == "dir" }
 func (i info) Sys() any           { return nil }
+
+// AddScratchName inserts, anywhere in the list, a regular file named after another regular file of the list
+// plus a work-file suffix: a name an extractor might pick for its own temporary file next to that entry.
+func AddScratchName(t *rapid.T, c *ListCase) {
+	var files []int
+	for i, e := range c.Entries {
+		if e.Mode == "file" && e.Name != "" && !strings.HasSuffix(e.Name, "/") {
+			files = append(files, i)
+		}
+	}
+	if len(files) == 0 {
+		return
+	}
+	of := c.Entries[files[gen.Uniform(t, len(files), "scratchof")]]
+	suf := []string{".tmp", "~", ".bak", ".part", ".partial", ".new", ".lock", ".0", ".download", "-tmp", ".swp", ".tmp/inner.go"}[gen.Uniform(t, 12, "scratchsuf")]
+	ne := Entry{Name: of.Name + suf, Mode: "file", Content: []byte("scratch?\n"), Size: -1}
+	for _, e := range c.Entries {
+		if e.Name == ne.Name {
+			return
+		}
+	}
+	at := gen.Uniform(t, len(c.Entries)+1, "scratchat")
+	c.Entries = append(c.Entries[:at:at], append([]Entry{ne}, c.Entries[at:]...)...)
+}
